@@ -30,6 +30,22 @@ def loglinear(e):
     return None
 
 
+def is_output_place(tn, b, pl):
+    """the stored-to place lies inside the output buffer: every points-to target of the place is
+    the `rawdata` parameter (or the captured `rawdata` of a closure of synthesize)"""
+    tgs = tn._targets(pl)
+    if not tgs or not any(e["k"] == "deref" for e in pl["proj"]):
+        return False
+    for (l, f) in tgs:
+        if b.kind == "Closure":
+            if not (l == 1 and (f or "").lstrip("*") == "rawdata"):
+                return False
+        else:
+            if not (1 <= l <= b.argc and b.local_name(l) == "rawdata"):
+                return False
+    return True
+
+
 def volume_reads(p):
     """every read of Vocoder::volume in the crate: (body, 'field'|'upvar')"""
     out = []
@@ -141,7 +157,8 @@ def run(ctx):
                 tgt = eb.place(st["place"])
                 root, chain = root_of(tgt)
                 val = eb.rvalue(st["rv"])
-                is_out = (root[0] == "upvar" and root[1].lstrip("*") == "rawdata") or (root[0] == "arg" and (root[2] or "") == "rawdata")
+                is_out = (root[0] == "upvar" and root[1].lstrip("*") == "rawdata") or (root[0] == "arg" and (root[2] or "") == "rawdata") \
+                    or is_output_place(tn, b, st["place"])
                 if not is_out:
                     ctx.fail("C16-R2", b.path, "store " + show(tgt)[:80], "volume flows into a store other than the output buffer: %s = %s" % (show(tgt)[:120], show(val)[:160]), cm.loc_of(st["span"]))
                     continue
@@ -173,8 +190,10 @@ def run(ctx):
     syn = "vocoder::Vocoder::synthesize"
     for b in [p.bodies[x] for x in sorted(p.bodies) if x == syn or x.startswith(syn + "::")]:
         eb = ExprBuilder(b)
+        tn0 = Taint(b, program=p)
         for bb, i, st, tgt, root, chain, val in stores(b, eb):
-            is_out = (root[0] == "upvar" and root[1].lstrip("*") == "rawdata") or (root[0] == "arg" and (root[2] or "") == "rawdata")
+            is_out = (root[0] == "upvar" and root[1].lstrip("*") == "rawdata") or (root[0] == "arg" and (root[2] or "") == "rawdata") \
+                or is_output_place(tn0, b, st["place"])
             if not is_out:
                 continue
             pol = to_poly(val, vol_atomize)
